@@ -1043,7 +1043,10 @@ def replay(ctx, path):
                 sig, where = san_signature(kind, text)
                 ctx.violation("sanitizer:" + sig, dict(report=text[:3000]))
             if r["rc"] not in (0, 1) and not r["reports"] and "V " not in r["out"]:
-                ctx.violation("crash:exit-status(%s,%s)" % (r["rc"], fl), dict(stderr=r["err"][-1500:]))
+                for sig, info in _native_signature(base64.b64decode(d["input_b64"]), scratch, fl, r["rc"], r["err"],
+                                                   d.get("api", 0), d.get("errsz", 1000)):
+                    print(sig, str(info)[:1500])
+                    ctx.violation(sig, dict(native=info))
             ctx.case("replay-fuzz", sample={"bytes": len(base64.b64decode(d["input_b64"]))})
         finally:
             shutil.rmtree(scratch, ignore_errors=True)
